@@ -1,6 +1,6 @@
 SPECIFICATION Spec
 CONSTANTS
-  Roots <- F_Roots
+  Roots <- F2_Roots
   Ops <- F_Ops
   Scheds = {"sync"}
   MaxDepth = 2
@@ -20,4 +20,5 @@ PROPERTY Lazy
 PROPERTY LazyDone
 PROPERTY StaysDask
 PROPERTY ContainerOnly
+PROPERTY PersistHolds
 CHECK_DEADLOCK FALSE
